@@ -1,4 +1,5 @@
 import Driver.ItvH
+import Driver.FixH
 
 /-!
   crabdrv : line-protocol driver.  Reads cases on stdin, one per line
@@ -13,6 +14,7 @@ def dispatch (comp op : String) (args res : List Sexp) : Verdict :=
   match comp with
   | "iv" => handleItv op args res
   | "bd" => handleBound op args res
+  | "fix" => handleFix op args res
   | _ => .bad s!"unknown component {comp}"
 
 def handleLine (line : String) : Verdict :=
